@@ -22,7 +22,7 @@ ASSUMPTIONS = ["times fit in 63 bits; scripts keep scan distances below ~3e5 buc
 
 def gen(rng, n):
     for i in range(n):
-        yield gen_far(rng) if i % 10 == 9 else (gen_beyond(rng) if i % 10 == 4 else gen_script(rng))
+        yield gen_far(rng) if i % 10 == 9 else (gen_beyond(rng) if i % 10 == 4 else (gen_hugeyear(rng) if i % 10 == 7 else gen_script(rng)))
 
 
 def nontrivial(script, out):
